@@ -346,7 +346,7 @@ def edge_facts(fn, bb):
             else:
                 names = [fn.prog.variant_by_discr(adt, v) if adt else v for v in e.others]
                 # if exactly one variant remains, state it positively too
-                a = fn.prog.adts.get(adt) if adt else None
+                a = fn.prog.find_adt(adt) if adt else None
                 if a is not None:
                     rest = [v["name"] for v in a["variants"] if v["name"] not in names]
                     if len(rest) == 1:
